@@ -47,6 +47,8 @@ const ENTRIES: &[Ent] = &[
     Ent::File("sub-/b"),
     Ent::File("\\a"),
     Ent::File("\\"),
+    Ent::File("é"),
+    Ent::File("éa"),
     Ent::Link("lnk", "a"),
     Ent::Link("dlnk", "sub"),
 ];
@@ -422,6 +424,10 @@ pub fn run(tier: Tier) -> i32 {
         cur = next;
     }
     // a backslash before an ordinary character and fields that start with `!`/`^` in brackets
+    // multi-byte file names: `?` is one character, brackets hold characters
+    for extra in ["é", "?", "??", "é?", "?a", "[é]", "[!a]*", "é*", "*a", "[é]a", "[a-é]"] {
+        fields.push(extra.chars().collect());
+    }
     for extra in ["[!a]", "[^a]", "[a-b]", "*/a", "*/.a", "s*/a", "*/*", "*/*/a", "sub*/?", "?ub/a", "*/", "./*", "sub/*", "*/..", "*/../*", "sub/../s*", "*/./a", "s*/../.a"] {
         fields.push(extra.chars().collect());
     }
